@@ -794,6 +794,9 @@ pub fn hook_generate_value_tld(name: &str, v: i128) -> Result<String, String> {
     let mut backend = crate::generator::rasn::Rasn::default();
     match backend.generate_module(vec![ToplevelDefinition::Value(tld)]) { Ok(m) if m.warnings.is_empty() => Ok(m.generated.unwrap_or_default()), Ok(m) => Err(format!("warnings: {:?}", m.warnings.iter().map(|w| w.to_string()).collect::<Vec<_>>())), Err(e) => Err(format!("{e:?}")) }
 }
+/// accessor for the native replay of format_identifier_annotation (unit GEN_emission)
+#[cfg(not(kani))]
+pub fn hook_identifier_annotation(name: &str, comments: &str, ty: &ASN1Type) -> String { crate::generator::rasn::Rasn::default().format_identifier_annotation(name, comments, ty).to_string() }
 /// accessor for the native replay of unit GEN_values: Rasn::value_to_tokens, token text as proc_macro2 prints it
 #[cfg(not(kani))]
 pub fn hook_value_to_tokens(v: &crate::intermediate::ASN1Value, type_name: Option<&str>) -> Result<String, String> {
